@@ -807,6 +807,9 @@ def failing_invalidation_records():
             {"name": "CompInvThroughProperty", "attrs": [{"kind": "int", "default": "lit"}, {"kind": "nums", "default": "none", "prop": "uncached"},
                                                           {"kind": "scores", "default": "attr_factory"}, {"kind": "tags", "default": "attr_factory"}],
              "opts": {"invalidated_by": {"nums": ["v"], "scores": ["nums"], "tags": ["nums"]}}},
+            {"name": "CompInvFactoryKeyed", "attrs": [{"kind": "marks", "default": "none"}, {"kind": "links", "default": "none"},
+                                                       {"kind": "nums", "default": "attr_factory"}],
+             "opts": {"invalidated_by": {"nums": ["marks", "links"]}}},
             {"name": "CompInvFactoryWords", "attrs": [{"kind": "words", "default": "mut"}, {"kind": "nums", "default": "attr_factory"}],
              "opts": {"invalidated_by": {"nums": ["words"]}}}]
 
